@@ -11,6 +11,20 @@ COMMON_NOTE = ("Trusted base: Coq 8.16.1 kernel + vm_compute (no native_compute,
                "modelled, not verified. ")
 
 CLAIMED = {
+ "C15": dict(
+  text="Theorems about a hand model of NMRTensor arithmetic and averaging (class tag, 3x3 data, initialisation parameters): negation, scaling, addition and "
+       "subtraction return the class and ALL parameters of the handling operand with data = the matrix operation; same-class operands with any differing "
+       "parameter are refused, with equal parameters never; a returned mean has the class/metadata of the first tensor, data = weighted mean matrix of all "
+       "listed tensors, one weight per tensor, only tensors of equal metadata; over the reals each entry of the weighted mean depends only on weight "
+       "ratios, ignores zero-weight entries, is the identity on one tensor and linear in the data. Tied to the code by correspondence (T+U / T-U including "
+       "refusals, flat weighted means on dyadic data: exact) and an oracle on the three classes with random metadata over every operator form (both operand "
+       "orders, Python and numpy scalars, 3x3 arrays, vectors, wrong shapes, foreign operands), nestings of depth 1-3 up to 4x4x3 x axis x weights (uniform, "
+       "positive, with zeros) against numpy averages, and collection-level mean properties against the property of the mean tensor.",
+  note="Mixed-class operands: numpy hands the call to the more specific class; the result then carries that operand's class and metadata (accepted). Nested "
+       "means are judged against numpy, only flat means go through the Coq model. Two defects found by this check were repaired (numpy integer scalars; "
+       "nested / depth-3 means).",
+  technique="Coq proof (records/lists, Reals field) of a hand model + differential correspondence (exact on dyadic data) + numpy oracle",
+  design="§8 C15"),
  "C16": dict(
   text="Theorems over the reals about a hand model of Translate / Rotate / Mirror (ASE's quaternion rotation matrix written out): exactly the selected atoms "
        "are moved, the others untouched, none added or lost; translation, point mirror, plane mirror and rotation by a unit quaternion about a centre are "
